@@ -64,14 +64,16 @@ def bindings():
     from pymap.parsing.specials.flag import Seen, Deleted, Recent, Flagged, Answered, Draft
     from pymap.parsing.command.any import NoOpCommand, CapabilityCommand, LogoutCommand
     from pymap.parsing.command.auth import AppendCommand, SelectCommand, ExamineCommand, \
-        StatusCommand, CreateCommand, DeleteCommand, RenameCommand, ListCommand
+        StatusCommand, CreateCommand, DeleteCommand, RenameCommand, ListCommand, LSubCommand, \
+        SubscribeCommand, UnsubscribeCommand
     from pymap.parsing.command.select import CheckCommand, CloseCommand, ExpungeCommand, \
         UidExpungeCommand, CopyCommand, UidCopyCommand, MoveCommand, UidMoveCommand, \
         FetchCommand, UidFetchCommand, StoreCommand, UidStoreCommand, SearchCommand, \
         UidSearchCommand
     from pymap.parsing.response import ResponseOk, ResponseNo, ResponseBad, ResponseBye
     from pymap.parsing.response.specials import ExpungeResponse, ExistsResponse, \
-        RecentResponse, FetchResponse, SearchResponse, FlagsResponse
+        RecentResponse, FetchResponse, SearchResponse, FlagsResponse, ListResponse, LSubResponse, \
+        StatusResponse
     from pymap.parsing.response.code import AppendUid, CopyUid
     from pymap.parsing.primitives import List, Number
     return dict(locals())
